@@ -489,11 +489,24 @@ def random_case(rng):
             hdrs.append(["X-T%d" % i, "v" + m])
             types.append([i, rng.choice(["name-bytes", "value-bytes", "value-int", "value-none"])])
         markers.append(m)
+    interp_bad = False
+    if rng.random() < 0.15:
+        # the headers the server interprets itself (framing, connection handling): refused text around an otherwise well-formed value
+        # is refused there like anywhere else - the body is 7 bytes, so the well-formed part stays truthful
+        n = rng.choice(["Content-Length", "content-length", "Connection", "Transfer-Encoding", "Upgrade", "Content-Type", "Set-Cookie", "Location"])
+        core = {"content-length": "7", "connection": "close", "transfer-encoding": "chunked", "upgrade": "websocket"}.get(n.lower(), "vZqK")
+        pre, post = rng.choice([("", "\r\n"), ("\r\n", ""), ("", "\n"), ("", "\r"), ("\n", "\n"), ("\r\n", "\r\n"), ("", "\0"), ("\0", ""),
+                                ("", " "), (" ", ""), ("", "\x0b"), ("\x0c", ""), ("", "\x85"), ("", "\r\nX-Inj: 1ZqK")])
+        hdrs.append([n, pre + core + post])
+        markers.append("ZqK")
+        interp_bad = any(c in pre + post for c in "\r\n\0")
     status = rng.choice(["407 Proxy Authentication Required", "401 Unauthorized", "426 Upgrade Required", "502 Bad Gateway", "503 Busy",
                          "200 OK", "404 Not Found", "200", "299 Custom Reason", "200 OK\r\nX-Inj: 1Zqs", "200 OK\nX-Inj: 1Zqs",
                          "200 \0Zqs", "abcZqs", "", "200 OK " + "r" * 300, "200 caf\xe9", "200 ĀZqs", "2 0 0", "204 No Content"])
     c = {"status": status, "headers": hdrs, "markers": markers + ["Zqs"], "types": types or None,
          "retry": rng.random() < 0.15, "catch": rng.random() < 0.2}
+    if interp_bad:
+        c["interp_bad"] = True
     if rng.random() < 0.12:
         c["late"] = rng.choice([["X-Late", "v\r\nSet-Cookie: lateZq=1"], ["X-Late\r\nX-lateZq", "1"], ["X-Late", "lateZq\0"],
                                 ["Transfer-Encoding", "lateZq"], ["X-Late", "lateZq"]])
@@ -547,6 +560,8 @@ def run_case(run, e2, harnesses, case):
         run.count("second_call_after_output_refused")
     exp = expected_lines(case, case["version"])[0]
     run.count("expected/" + exp)
+    if case.get("interp_bad") and exp == "refuse" and outcome in ("refused-500", "nothing-sent", "caught-500"):
+        run.count("interpreted_header_with_refused_text_refused")
     if case.get("status_bytes") and any(ch in case["status"] for ch in "\r\n\0") and not verdicts:
         run.count("status_as_bytes_with_control_text_kept_out_of_the_head")
     if exp == "refuse" and outcome in ("refused-500", "nothing-sent"):
@@ -613,7 +628,7 @@ def shard(sh):
 
 def main(tier, seed):
     run = Run(PROP, tier, seed, "exploration", RULE)
-    run.require("must_refuse_refused", "second_call_after_output_refused", "status_as_bytes_with_control_text_kept_out_of_the_head", "accepted_head_exact", "expected/either", "outcome/refused-500",
+    run.require("must_refuse_refused", "interpreted_header_with_refused_text_refused", "second_call_after_output_refused", "status_as_bytes_with_control_text_kept_out_of_the_head", "accepted_head_exact", "expected/either", "outcome/refused-500",
                 "tolerance_switch_cases/strip", "tolerance_switch_cases/lenient", "name_with_trailing_blank_refused_under_strip_header_spaces",
                 "interim_sequences", "interim_sequences_must_refuse", "interim_must_refuse_refused")
     q = tier == "quick"
